@@ -62,10 +62,12 @@ def trace_cfg():
 def model_check(tier):
     """Use (A).  Anything but success is a problem of the specification: inconclusive."""
     runs = []
-    depth = 7 if tier == "quick" else 10
-    todo = [("as-coded", depth, True, 2, True), ("dup-skipped", depth, False, 2, False)]
+    depth = 7 if tier == "quick" else 11
+    # -coverage 1 (vacuity guard) multiplies the run time (measured: 23 s -> 359 s at depth 10), so it is
+    # switched on for the smallest configuration of the tier only
+    todo = [("as-coded", depth, True, 2, False), ("dup-skipped", depth, False, 2, tier == "quick")]
     if tier == "thorough":
-        todo.append(("real-bytes", 6, True, 255, False))
+        todo.append(("real-bytes", 6, True, 255, True))
     for label, d, dup, maxbyte, cov in todo:
         cfg = write_cfg("HashSetGen.A.%s.cfg" % label, d, dup, False, maxbyte, True)
         res = vlib.run_tlc("HashSetGen", cfg, workers=min(vlib.NCPU, 8), coverage=cov, timeout=1500)
@@ -132,7 +134,7 @@ def run(tier, seed):
         sim_scen = os.path.join(vlib.sub("scn"), "hashset-sim.ndjson")
         sd = 14
         rs = vlib.run_tlc("HashSetGen", write_cfg("HashSetGen.S.cfg", sd, True, True, 2, False), workers=workers,
-                          scn_out=sim_scen, simulate=2500, depth=sd + 1, seed=seed, timeout=1500)
+                          scn_out=sim_scen, simulate=5000, depth=sd + 1, seed=seed, timeout=1500)
         if rs.scn == 0 or "Error" in rs.output_tail or "Finished in" not in rs.output_tail:
             raise vlib.Inconclusive("TLC -simulate failed on HashSetGen:\n" + rs.output_tail)
         out2 = vlib.replay(ENGINE, sim_scen, env=env)
@@ -147,7 +149,7 @@ def run(tier, seed):
     # (C) real-scale traces + a sample of the scenarios as traces, judged by TLC
     tdir = vlib.sub("traces")
     trace = os.path.join(tdir, "hashset.ndjson")
-    ntr, ln = (20, 400) if tier == "quick" else (150, 600)
+    ntr, ln = (20, 400) if tier == "quick" else (220, 600)
     p = vlib.run_record(ENGINE, ["--seed", str(seed), "--n", str(ntr), "--len", str(ln), "--out", trace,
                                  "--dir", fast_tmp()])
     if p.returncode != 0:
